@@ -414,6 +414,7 @@ func init() {
 				return 8
 			}
 			return 5
-		}, Run: run, Replay: replay, Parallel: true}},
+		}, Run: run, Replay: replay, Parallel: true},
+			{Name: "decision", Shards: func(string) int { return 4 }, Run: runDecision, Replay: replayDecision}},
 	})
 }
